@@ -151,6 +151,7 @@ def build_header(t):
     o += struct.pack("<I", t["nblocks"])
 
     def z(s):
+        s = s[:254]                            # the size byte counts the terminator
         return bytes([len(s) + 1]) + s + b"\0"
     if is_bethesda(f, u):
         o += struct.pack("<I", t["stream"]) + z(t["creator"])
